@@ -196,6 +196,12 @@ theorem step_reject_drop (s : Scanner) (pos : Nat) (r : DS) (text : Word) (val :
   rw [hpush2]
   dsimp only
   rw [if_neg (by simp)]
+  -- `Incomplete` on the fresh parser leaves the scanner as it is; any other error goes through `outside`
+  by_cases hinc : e2 = .incomplete
+  · subst hinc
+    rw [if_pos (by rfl)]
+    exact ⟨_, rfl, rfl, h1, q1⟩
+  rw [if_neg (by cases e2 <;> first | exact absurd rfl hinc | decide)]
   obtain ⟨o1, o2, _, _⟩ := T2N.Lift.outside_tracker (scanCfg Es.lang zeroThr)
     ({ s1 with parser := { int := {} } } : Scanner) (wt w)
   refine ⟨_, rfl, ?_, ?_, ?_⟩
